@@ -371,5 +371,5 @@ def run(ctx):
         "Non-trivial = at least 3 coefficients with at least one zero coefficient; distinct by full case."
     )
     ctx.assumptions = ["python Fractions are exact", "for reversed poly.add only equal-length lists are generated (alignment rule undocumented)"]
-    n = 400 if ctx.quick else 30000
+    n = 1500 if ctx.quick else 40000
     ctx.pmap(_shard, [(ctx.seed, s, n, ctx.known) for s in range(16)])
